@@ -1,6 +1,7 @@
 """C11 - concurrent use of one channel is race-free and deadlock-free (partial)."""
 import os
 
+import gen_evtimeout
 import gen_locktable
 import threadlib
 import vlib
@@ -8,7 +9,7 @@ import vlib
 ID = "C11"
 IMPORTS = ["CaresProps.C11"]
 LEAN_TARGETS = ["CaresProps.C11"]
-GENERATORS = [gen_locktable.gen_locktable]
+GENERATORS = [gen_locktable.gen_locktable, gen_evtimeout.gen_evtimeout]
 THEOREMS = vlib.discover_theorems("CaresProps/C11.lean") + [
     "Cares.C07b.lockInv_step", "Cares.C07b.lockInv_init", "Cares.C07b.covered_step"]
 TRUSTED = [
